@@ -106,7 +106,11 @@ class EqualConstant(Logic):
 
         w = a.getWidth()
         
-        if (w == 1):
+        if (v < 0) or (v >= (1 << w)):
+            # the input can never be equal to a constant outside its range
+            from .bitwise import Constant
+            Constant(self, 'never', 0, r)
+        elif (w == 1):
             # very simple case
             if (v == 0):
                 Not(self, 'buf', a, r)
